@@ -416,6 +416,21 @@ def g_pattern_new(ctx):
     return not bad, "Pattern::new/str are called only inside ast-grep-core's convenience API: %s" % sorted(callers) if not bad else "called with possibly user-supplied text from %s" % bad
 
 
+@guard("peekable_nonempty")
+def g_peekable(ctx):
+    """typestate analysis (sgcheck/peekable.py): every peek().unwrap() / next().unwrap() in the pattern-alignment module is
+    reached only with the iterator known non-empty; helper pre/post-conditions are inferred and checked at their call sites"""
+    from .. import peekable
+    summ, res = peekable.analyse_module(ctx.prog, lambda f: f.id.startswith("ast_grep_core::match_tree::match_node::"))
+    obs = [(k, o) for k, a in res.items() for o in a.obligations]
+    bad = ["%s L%d: %s" % (k.rsplit("::", 1)[-1], o[2], o[0]) for k, o in obs if not o[3]]
+    ctx.extra["peekable_typestate"] = {"obligations": len(obs), "failed": bad,
+                                        "summaries": {k.rsplit("::", 1)[-1]: {"pre": sorted(v["pre"]), "post": {x: sorted(y) for x, y in v["post"].items()}} for k, v in summ.items()}}
+    if len(obs) < 8:
+        return False, "typestate analysis found only %d unwrap/call obligations (expected >= 8): it has gone blind" % len(obs)
+    return not bad, "%d iterator obligations discharged (helper contracts %s)" % (len(obs), {k.rsplit("::", 1)[-1]: sorted(v["pre"]) for k, v in summ.items()}) if not bad else "iterator may be empty at: %s" % "; ".join(bad)
+
+
 @guard("rewrite_edits_filtered")
 def g_rewrite_filtered(ctx):
     """every `edit.position - start/offset` in rewrite.rs is protected: make_edit uses checked_sub; Rewrite::compute only
